@@ -294,6 +294,7 @@ type TraitInstance struct {
 	OwningValue  Value
 	value        string
 	variableName string         // optional; will be used if exists.
+	valueIdents  []string       // identifiers that `value` refers to.
 	constType    types.Type     // type of the trait constant on this line (nil if unknown).
 	constValue   constant.Value // its value (nil if unknown).
 }
@@ -315,4 +316,12 @@ func (t TraitInstance) Value() string {
 		return t.variableName
 	}
 	return t.value
+}
+
+// identifiers returns the identifiers that Value() refers to.
+func (t TraitInstance) identifiers() []string {
+	if t.variableName != "" && t.variableName != "_" {
+		return []string{t.variableName}
+	}
+	return t.valueIdents
 }
